@@ -198,6 +198,46 @@ func (w *World) checkOrder(chain []Query, pool []Query) {
 			return
 		}
 	}
+	// a search value is not consumed by collecting it: the same limited search collected again, or
+	// collected after One, still returns the first min(n, matches)
+	if m > 0 {
+		n := uint64(1 + w.rng.Intn(m))
+		afterOne := w.rng.P(0.4)
+		var again []*Rec
+		var err2 error
+		if w.call("Search.Limit.Collect(twice)", func() {
+			s := mk().Limit(n)
+			if err2 = s.Err(); err2 != nil {
+				return
+			}
+			if afterOne {
+				_, err2 = s.One()
+			} else {
+				_, err2 = s.Collect()
+			}
+			if err2 != nil {
+				return
+			}
+			var objs []sod.Object
+			objs, err2 = s.Collect()
+			again, _ = objsToRecs(objs)
+		}) {
+			return
+		}
+		if err2 != nil {
+			w.fail("order-search-error", "Search.Limit.Collect(twice)", "-", err2.Error())
+			return
+		}
+		if why := prefixOK(uuidsOf(again), again, fullKeys, n); why != "" {
+			first := "Collect"
+			if afterOne {
+				first = "One"
+			}
+			w.fail("limit-consumed", limitClass(n, m), first, fmt.Sprintf("%s Limit(%d) collected a second time (after %s): %s", desc, n, first, why))
+			return
+		}
+		stats.Count("recollect_checks", 1)
+	}
 	// One / AssignOne: the first element (by key; any member of the first tie group)
 	checkOne := func(api string, o sod.Object, err error) {
 		if m == 0 {
